@@ -22,8 +22,11 @@ SMALL_ABS = 6        # statements inserted + deleted
 SMALL_MID = 10
 
 
-def small(ch, n):
-    """Few statements changed: at most SMALL_ABS, or up to SMALL_MID when that is at most half of the function."""
+def small(ch, n, loose=False):
+    """Few statements changed: at most SMALL_ABS, or up to SMALL_MID when that is at most half of the function.
+    loose (findings with an explicit truth-table counterexample): up to SMALL_MID, or 60 % of the function."""
+    if loose:
+        return ch <= SMALL_MID or ch <= 0.6 * n
     return ch <= SMALL_ABS or (ch <= SMALL_MID and 2 * ch <= n)
 
 
@@ -92,7 +95,7 @@ def distance(rel, qual, func):
     return (len(want) - same) + (len(got) - same), len(want)
 
 
-def small_edit(mod, line):
+def small_edit(mod, line, loose=False):
     """Is the function of module `mod` (canonical form) containing `line` a small edit of its reviewed self?
     -> (True/False, description)"""
     best = None
@@ -107,7 +110,7 @@ def small_edit(mod, line):
     if d is None:
         return False, f"{q} is not a function of the reviewed tree"
     ch, n = d
-    ok = small(ch, n)
+    ok = small(ch, n, loose)
     return ok, f"{q}: {ch} of {n} reviewed statements changed"
 
 
@@ -131,6 +134,7 @@ def file_small_edit(mod):
 # ---------------------------------------------------------------------------------------------------------------
 
 HY_SMALL = 12      # tokens inserted + deleted
+HY_MID = 25        # ... or up to this many when that is at most 30 % of the form
 
 
 def hy_key(form):
@@ -189,6 +193,6 @@ def hy_small_edit(hyfile, line):
         sm = difflib.SequenceMatcher(a=want, b=got, autojunk=False)
         same = sum(b.size for b in sm.get_matching_blocks())
         ch = (len(want) - same) + (len(got) - same)
-        if ch > HY_SMALL:
+        if not (ch <= HY_SMALL or (ch <= HY_MID and ch <= 0.3 * len(want))):
             return False, f"`{k}`: {ch} of {len(want)} reviewed tokens changed"
     return True, "as reviewed or nearly so"
